@@ -128,7 +128,7 @@ def run(ctx):
     from .. import pipeline
 
     # wiring: the run's stored columns are this stage applied to the run's stored columns (see nssmc/pipeline.py)
-    pipeline.run_in(ctx, ['spectrum'], ('A', 'B', 'C'))
+    pipeline.run_in(ctx, ['spectrum'], ('A', 'B', 'C'), plots=['spectra_histogram'])
     tier = ctx.tier
     Ns = [0, 1, 2, 3, 8192, 8193]
     idx = [0.0, 0.5, 1 - 1e-6, 1.0, 1 + 1e-6, 1.5, 2.0, 2.5, 3.0, 4.0]
